@@ -25,7 +25,9 @@ def dispatch (op : String) (j : Lean.Json) : Lean.Json :=
   | "call_outcome" => Sebuf.Driver.opCallOutcome j
   | "client_url" => Sebuf.Driver.opClientUrl j
   | "header_check" => Sebuf.Driver.opHeaderCheck j
+  | "published_headers" => Sebuf.Driver.opPublishedHeaders j
   | "error_case" => Sebuf.Driver.opErrorCase j
+  | "ts_server_error" => Sebuf.Driver.opTsServerError j
   | "build_defects" => Sebuf.Driver.opBuildDefects j
   | "spec_enc" => Sebuf.Driver.opSpecEnc j
   | "resp_codec" => Sebuf.Driver.opRespCodec j
